@@ -13,7 +13,31 @@ import (
 	"strings"
 )
 
+// ParseFile parses a file of the repository and maps renamed identifiers back
+// to the reference naming (see refnames.go).  With VERIF_WRITE_REFNAMES set it
+// records the file's naming in the reference instead.
 func ParseFile(repo, rel string) (*token.FileSet, *ast.File, error) {
+	fset, f, err := parseRaw(repo, rel)
+	if err != nil {
+		return fset, f, err
+	}
+	if os.Getenv("VERIF_WRITE_REFNAMES") != "" {
+		_ = WriteRefNames(repo, []string{rel}, RefNamesPath())
+	} else {
+		applyRef(rel, f)
+	}
+	ints, _ := ConstValues(f)
+	for k, v := range ints {
+		KnownConsts[k] = v
+	}
+	return fset, f, err
+}
+
+// KnownConsts: integer constants of every file parsed so far (EvalInt falls back to them for identifiers
+// that its caller's environment does not know, e.g. a literal that was given a name).
+var KnownConsts = map[string]int64{}
+
+func parseRaw(repo, rel string) (*token.FileSet, *ast.File, error) {
 	fset := token.NewFileSet()
 	f, err := parser.ParseFile(fset, filepath.Join(repo, rel), nil, parser.ParseComments)
 	return fset, f, err
@@ -205,6 +229,9 @@ func EvalInt(e ast.Expr, iota int64, env map[string]int64) (int64, bool) {
 			return iota, true
 		}
 		if v, ok := env[x.Name]; ok {
+			return v, true
+		}
+		if v, ok := KnownConsts[x.Name]; ok {
 			return v, true
 		}
 	case *ast.ParenExpr:
